@@ -59,6 +59,8 @@ pub fn batches(prop: &str, tier: &str) -> Vec<Batch> {
         "C10" => vec![
             Batch { label: "paths-sequential", engine: "lsp-sim", params: json!({"mode":"sequential","focus":"paths"}), runs: if q { 300 } else { 30_000 } },
             Batch { label: "paths", engine: "lsp-sim", params: json!({"mode":"paths"}), runs: if q { 900 } else { 120_000 } },
+            Batch { label: "js-api", engine: "api-sim", params: json!({"target":"wasm"}), runs: if q { 150 } else { 15_000 } },
+            Batch { label: "library", engine: "cache-sim", params: json!({"mode":"history"}), runs: if q { 100 } else { 10_000 } },
         ],
         "C09" => vec![
             Batch { label: "sequential", engine: "lsp-sim", params: json!({"mode":"sequential"}), runs: if q { 400 } else { 40_000 } },
@@ -172,7 +174,7 @@ pub fn def(prop: &str) -> Option<PropDef> {
                 "main.rs (the loopback listener) and the explicit HarperOpen command are excluded, as the property states",
                 "only code paths the workloads reach are covered; the dependency graph as such is a static question outside this technique",
             ],
-            must_reach: vec!["c10_writes_seen", "c10_snapshots", "gate_create", "spawn", "stats_saved"],
+            must_reach: vec!["c10_writes_seen", "c10_snapshots", "gate_create", "spawn", "stats_saved", "c10_library_runs_checked"],
             real: vec!["harper-ls (all modules but main.rs)", "tower-lsp 0.20", "harper-core and all front-end crates", "std::fs / std::net / uuid / chrono / dirs / open crates as linked"],
             stub: vec!["harper-ls main.rs", "tokio runtime", "tokio::fs scheduling", "the editor", "libc network calls (refused), libc file calls (recorded, forwarded)"],
             watchdog_secs: 180,
